@@ -29,14 +29,14 @@ H = []
 
 
 def h(prop, crate, module, name, obligation, functions, bounds, quick=True, tq=300, tt=1800, unwind=None, miri=False,
-      memsafety=False, stubs=None, instantiation="", extra_props=(), fs=None, rv=True, exp=False):
+      memsafety=False, stubs=None, instantiation="", extra_props=(), fs=None, rv=True, exp=False, mem=0):
     """exp=True: experimental tier only (`bin/check P --tier experimental`): harnesses that are kept in the tree but did not discharge
     within the thorough cap on this image; they are not part of any registered command (a check that cannot finish proves nothing)."""
     H.append({
         "props": [prop] + list(extra_props), "crate": crate, "name": f"{module}::{name}", "obligation": obligation,
         "functions": functions, "bounds": bounds, "tiers": ("experimental",) if exp else (("quick", "thorough") if quick else ("thorough",)),
         "timeout": {"quick": tq, "thorough": tt}, "unwind": unwind, "miri": miri, "memsafety": memsafety,
-        "stubs": stubs, "instantiation": instantiation, "fs": fs, "rv": rv,
+        "stubs": stubs, "instantiation": instantiation, "fs": fs, "rv": rv, "mem": mem,
     })
 
 
@@ -203,7 +203,7 @@ for alg in ("fifo", "lru", "sieve"):
           "RawCacheShard::{emplace,evict,remove,clear}, Sentry, " + alg.capitalize() + "::{push,pop,remove,clear}",
           f"capacity symbolic 0..=4; {n} operations, each a symbolic choice of emplace(key in {{16,17,32}}, weight 0..3, phantom?, low hint?) / remove(key) / clear / evict(0)",
           quick=(alg == "fifo" and n == 2), tq=900, tt=3000, unwind=6, instantiation=INST[alg].replace("RawCache", "RawCacheShard"), stubs=MEMORY_STUBS + TAKE,
-          exp=(n == 3))
+          exp=(n == 3), mem=(0 if alg == "fifo" else 12))
 h("C05", "foyer-memory", RAW, "c05_a4_capacity_split", "A4 shard capacities add up and differ by at most one", "RawCache::shard_capacity_for",
   "every total: usize, shards 1..=4", quick=True, tq=300, stubs=MEMORY_STUBS)
 
@@ -259,7 +259,7 @@ for nm, alg, what, q in (("c14_lru_script_release_full_pool", "Lru", "push0, acq
                          ("c14_sieve_script_hand_wraps", "Sieve", "the hand skips two visited entries and wraps", True),
                          ("c14_sieve_script_remove_hand", "Sieve", "the entry under the hand is removed", False)):
     h("C14", "foyer-memory", EV, nm, f"{alg} scripted differential (literal operation sequence, symbolic weights 1..=2 and hints): " + what,
-      f"{alg}::{{new,push,pop,remove,acquire,release}} on real Arc<Record>s", "3 records; literal sequence of 6-9 operations followed by a full drain", quick=q, tq=900, tt=2400, unwind=6, stubs=MEMORY_STUBS)
+      f"{alg}::{{new,push,pop,remove,acquire,release}} on real Arc<Record>s", "3 records; literal sequence of 6-9 operations followed by a full drain", quick=q, tq=900, tt=2400, unwind=6, stubs=MEMORY_STUBS, mem=(22 if nm.startswith("c14_lru_script") else 0))
 S3STUB = MEMORY_STUBS + ["std HashSet::{insert,remove} -> no-op and GhostQueue::contains -> linear scan of the ghost VecDeque (std's HashSet is SSE2 hashbrown inside the prebuilt std); "
                          "equivalent while no hash is ghosted twice (every record has a distinct hash)", "std::hash::RandomState::new -> fixed keys (never used)"]
 for nm, cfgt, nops, q in (("c14_s3fifo_g2_4", "capacity 4, small 0.25 (1), ghost 0.5 (2), threshold 1", 4, True), ("c14_s3fifo_g2_5", "capacity 4, small 0.25, ghost 0.5, threshold 1", 5, False),
